@@ -68,6 +68,6 @@ def main(chk):
 MANIFEST = {
     'category': 'proof',
     'technique': 'Coq proofs (induction over frame lists with the reader state abstracted to "bytes not yet consumed"; permutation argument for sequence matching) on an executable model of RPC framing over a byte FIFO + vm_compute correspondence against the real codecs on recorded frames and chunk schedules + runtime oracle on real net/rpc over net.Pipe, a fragmenting/coalescing pipe and TCP (race detector in the thorough tier)',
-    'text': 'PARTIAL. Proved for the model, unbounded: C18_frames (for both codecs, every self-delimiting value code, every list of frames, every writer/reader buffer size and every fragmentation/coalescing schedule the reading codec returns exactly the frames written, in order), C18_truncated (a connection that ends after t bytes yields exactly the frames that arrived whole, then a clean end or an error, never a partial frame), C18_frames_guarded / C18_rawmark_refuted (the defect class F18-1: an array descriptor read around a buffering Decoder loses the second of two coalesced frames; repaired in /repo), C18_matching / C18_reply / C18_reply_error (any number of calls, any completion order: call i returns f(args_i) or its own server-side error, nothing stays pending, end to end over the wire), C18_depth_frame / C18_depth / C18_depth_leak_refuted (a message leaves the depth of the Decoder where it found it, so any number of messages nesting below MaxDepth never hits the depth limit on a long-lived connection; the leaking variant dies at message MaxDepth-1), C18_discard / C18_discard_via_iface_refuted (a discarded body is consumed like any value slot and, being swallowed, cannot put the Decoder into its sticky error state whatever its shape; discarding by Decode into interface{} is refuted), C18_close / C18_close_once / C18_after_close (Close is idempotent, closes the connection once, later operations are refused and write nothing). Runtime only: goroutine scheduling, TCP, Close unblocking a pending read, absence of stuck goroutines - exercised by the harness (6 codecs x 25 buffer pairs x 7 transports incl. the documented bufio-wrapped connection, 1..64 concurrent calls, watchdog; every two-cut chunk schedule of three short frames; discarded bodies that are no interface{} value (maps keyed by arrays/structs) sent to unknown methods with other calls in flight; all strings carry json escapes and are re-checked after later messages; long-lived connections: hundreds of sequential + concurrent calls under MaxDepth 8 and >1024 calls under the default), not proved.',
+    'text': 'PARTIAL. Proved for the model, unbounded: C18_frames (for both codecs, every self-delimiting value code, every list of frames, every writer/reader buffer size and every fragmentation/coalescing schedule the reading codec returns exactly the frames written, in order), C18_truncated (a connection that ends after t bytes yields exactly the frames that arrived whole, then a clean end or an error, never a partial frame), C18_frames_guarded / C18_rawmark_refuted (the defect class F18-1: an array descriptor read around a buffering Decoder loses the second of two coalesced frames; repaired in /repo), C18_matching / C18_reply / C18_reply_error (any number of calls, any completion order: call i returns f(args_i) or its own server-side error, nothing stays pending, end to end over the wire), C18_depth_frame / C18_depth / C18_depth_leak_refuted (a message leaves the depth of the Decoder where it found it, so any number of messages nesting below MaxDepth never hits the depth limit on a long-lived connection; the leaking variant dies at message MaxDepth-1), C18_discard / C18_discard_via_iface_refuted (a discarded body is consumed like any value slot and, being swallowed, cannot put the Decoder into its sticky error state whatever its shape; discarding by Decode into interface{} is refuted), C18_close / C18_close_once / C18_after_close (Close is idempotent, closes the connection once, later operations are refused and write nothing). Runtime only: goroutine scheduling, TCP, Close unblocking a pending read, absence of stuck goroutines - exercised by the harness (6 codecs x 25 buffer pairs x 7 transports incl. the documented bufio-wrapped connection, 1..64 concurrent calls, watchdog; every two-cut chunk schedule of three short frames; discarded bodies that are no interface{} value (maps keyed by arrays/structs) sent to unknown methods with other calls in flight; all strings carry json escapes and are re-checked after later messages; codec.Raw pass-through on Raw+ZeroCopy handles (every caller gets its own bytes back, values re-checked after later messages: ownership itself is C13, not modelled here); long-lived connections: hundreds of sequential + concurrent calls under MaxDepth 8 and >1024 calls under the default), not proved.',
     'note': 'Trusted: Coq kernel, the hand-written framing model (correspondence-checked on real frames, not verified), hypotheses C11 (self-delimiting) and C01 (round trip) for the typed layer, net/rpc, net, the Go scheduler and race detector, the harness. The model abstracts the Decoder buffer to "whatever one raw Read returned" and the unbuffered reader to one byte per Read; byte-exact buffer mechanics are C03. Known limit (not a fragmentation issue, same as encoding/json): a connection that ENDS inside a bare top-level json number is read as the shorter number; such cut points are excluded from the truncation cases.',
 }
